@@ -196,6 +196,51 @@ theorem terminal_items {c : Cfg} {input : List Nat} {s : St} (h : Good c input s
       simp [St.wdone, c2] at hwd
       exact (c7 hwd).2.1
 
+/-- a failure-free run that has ended saw the channel the consumer / the workers read closed (io.EOF) -/
+theorem terminal_eof {c : Cfg} {input : List Nat} {s : St} (h : Good c input s) (hwf : c.wf)
+    (hclean : s.envStopped = false) (ht : s.terminal c = true) :
+    s.cons = .done ∧ (if c.hasOut then s.oclosed else s.pclosed) = true := by
+  obtain ⟨⟨h1, h2, h3, h4, h5, h6, h7, h8, h9, h10, h11, h12, h13, h14, h15⟩, _, hc⟩ := h
+  obtain ⟨c1, c2, c3, c4, c5, c6, c7, c8⟩ := hc hclean
+  obtain ⟨w1, w2, w3, w4⟩ := hwf
+  simp only [St.terminal, St.allExited, Bool.and_eq_true, Bool.or_eq_true, decide_eq_true_eq, Bool.not_eq_true'] at ht
+  obtain ⟨hall, hdone⟩ := ht
+  refine ⟨hdone, ?_⟩
+  cases ho : c.hasOut with
+  | true =>
+    have hwd := h9 ho hdone
+    simp [St.wdone, c2] at hwd
+    have := h14 (c7 hwd).2.2.1
+    simp [this, ho]
+  | false =>
+    have hstarted : s.started = true := by
+      cases hl : c.lazy with
+      | false => exact h6 hl
+      | true => simp [w2 hl] at ho
+    have hlive : s.live = 0 := by grind
+    have hl2 := hlive
+    unfold St.live at hl2
+    have hrd : s.rd = .exited := c4 (by omega)
+    simp [h2.mpr hrd]
+
+/-- a terminal state has no live goroutine -/
+theorem terminal_noleak {c : Cfg} {s : St} (ht : s.terminal c = true) :
+    (if s.started then (if s.rd = .exited || s.rd = .notStarted then 0 else 1) + s.live
+      + (if c.hasCloser && s.kst != .exited then 1 else 0) + s.waiters else 0) = 0 := by
+  simp only [St.terminal, St.allExited, Bool.and_eq_true, Bool.or_eq_true, decide_eq_true_eq, Bool.not_eq_true'] at ht
+  obtain ⟨hall, _⟩ := ht
+  cases hs : s.started with
+  | false => simp
+  | true =>
+    simp [hs] at hall
+    obtain ⟨⟨⟨hr, hl⟩, hk⟩, hw⟩ := hall
+    have : (s.rd = .exited ∨ s.rd = .notStarted) := hr
+    simp [hl, hw]
+    refine ⟨by rcases this with h | h <;> simp [h], ?_⟩
+    intro hcl; rcases hk with h | h
+    · simp [hcl] at h
+    · exact h
+
 /-- some worker holds an item: one of its actions (or the consumer's) is enabled -/
 theorem holder_progress {c : Cfg} {input : List Nat} {s : St} (h : Inv c input s) {x : Nat} {xs : List Nat}
     (hh : s.hold = x :: xs) : ∃ a, a.isEnv = false ∧ (step c s a).isSome = true := by
